@@ -42,7 +42,7 @@ MANIFEST = dict(
 REQUIRED = ["Xmp.TestLoad." + n for n in (
     "C11_agree", "C11_agree_wrappers", "C11_agree_needs_nonpos", "C11_strings_failure", "C11_strings_success",
     "C11_strings_success_partial", "C11_strings_counterexample", "C11_strings_wrapper_counterexample",
-    "C11_strings_wrappers_partial", "C11_title", "C11_title_buffers", "C11_title_raw", "C11_title_exact",
+    "C11_strings_wrappers_partial", "C11_strings_wrappers", "C11_title", "C11_title_buffers", "C11_title_raw", "C11_title_exact",
     "C11_no_side_effect", "C11_no_leak", "C11_no_close_mem_cb", "C11_codes_distinct", "C11_prepare_scan_codes",
     "C11_table_names")]
 
@@ -154,11 +154,46 @@ def run_corr_shard(args):
     return rc, out.decode("latin-1"), err
 
 
+def make_containers(ck, scratch):
+    """gzip/bzip2/xz/zip archives (python's encoders) of small synthetic payloads, intact and damaged:
+    inputs on which the depack step of the path/FILE wrappers does something."""
+    import bz2
+    import gzip
+    import io
+    import lzma
+    import zipfile
+    out = []
+    d = os.path.join(scratch, "containers")
+    os.makedirs(d, exist_ok=True)
+    for k in range(6):
+        n = ck.rng.randrange(120, 400)
+        payload = bytes([ck.rng.randrange(0, 12)]) + bytes(ck.rng.choice(b" AbC.z\x01\x7f\x00\xe9") if ck.rng.random() < 0.3
+                                                            else ck.rng.randrange(1, 256) for _ in range(n))
+        payload = payload.replace(b"\xdd", b"d").replace(b"\xee", b"e")
+        zb = io.BytesIO()
+        with zipfile.ZipFile(zb, "w", zipfile.ZIP_DEFLATED) as z:
+            z.writestr("song%d.bin" % k, payload)
+        encs = {"gz": gzip.compress(payload), "bz2": bz2.compress(payload),
+                "xz": lzma.compress(payload, check=lzma.CHECK_CRC32), "zip": zb.getvalue()}
+        for ext, blob in encs.items():
+            variants = {"ok": blob, "trunc": blob[:max(101, len(blob) * 2 // 3)]}
+            b2 = bytearray(blob)
+            pos = ck.rng.randrange(len(b2) // 2, len(b2) - 8)
+            b2[pos] ^= 1 << ck.rng.randrange(8)
+            variants["flip"] = bytes(b2)
+            for vn, vb in variants.items():
+                p = os.path.join(d, "c%d-%s.%s" % (k, vn, ext))
+                open(p, "wb").write(vb)
+                out.append(p)
+    return out
+
+
 def correspondence(ck, exe, scratch, pool):
     quick = ck.tier == "quick"
+    cont = make_containers(ck, scratch)
     plan = [("strings", 4, 2500 if quick else 40000, []),
             ("table", 6, 400 if quick else 6000, [scratch] + pool),
-            ("wrap", 4, 150 if quick else 2500, [scratch] + pool)]
+            ("wrap", 4, 200 if quick else 2500, [scratch] + pool[:10] + cont)]
     shards = []
     for mode, ns, per, rest in plan:
         for i in range(ns):
@@ -392,6 +427,27 @@ def oracle(ck, scratch):
              "title_pairs": 0, "title_pairs_nonempty": 0, "title_pairs_differ_bytes": 0, "premise_failures": 0,
              "crashes": 0, "timeouts": 0, "uninit_titles": 0}
     exe = vlib.build_harness("c11_agree", ["c11_agree.c"])
+    try:
+        exem = vlib.build_harness("c11_agree", ["c11_agree.c"], variant="msan")
+    except vlib.InfraError as e:
+        ck.note("msan", "unavailable: " + str(e)[:200])
+        exem = None
+    # minimised past findings first (deterministic)
+    import json
+    cases = json.load(open(os.path.join(vlib.VERIF, "corpus", "c11_cases.json")))["cases"]
+    for msan, x in ((False, exe), (True, exem)):
+        sel = [c for c in cases if os.path.exists(os.path.join(vlib.REPO, c["file"])) and (not msan or c.get("msan"))]
+        if not sel or x is None:
+            continue
+        lst = os.path.join(scratch, "cases-%d.txt" % msan)
+        open(lst, "w").write("".join("%s\t%s\n" % (c["variant"], os.path.join(vlib.REPO, c["file"])) for c in sel))
+        os.makedirs(os.path.join(scratch, "c%d" % msan), exist_ok=True)
+        rc, out, err = vlib.run_exe(x, ["cases", os.path.join(scratch, "c%d" % msan), bystander, lst], timeout=1200,
+                                    env={"MSAN_OPTIONS": "halt_on_error=1:exit_code=86"})
+        if rc != 0:
+            raise vlib.InfraError("c11_agree cases failed (rc=%d): %s" % (rc, err[-2000:]))
+        judge_files(ck, parse_oracle(out.decode("latin-1"), err), "c11_agree(msan)" if msan else "c11_agree", stats, msan=msan)
+    ck.note("oracle_seeded_cases", len(cases))
     # large files first, round-robin over shards
     order = sorted(files, key=lambda f: -os.path.getsize(f))
     nsh = vlib.NCPU
@@ -403,11 +459,6 @@ def oracle(ck, scratch):
         judge_files(ck, parse_oracle(out, err), "c11_agree", stats)
     ck.note("oracle_files", len(files))
     # MemorySanitizer pass: initialisedness of the reported strings
-    try:
-        exem = vlib.build_harness("c11_agree", ["c11_agree.c"], variant="msan")
-    except vlib.InfraError as e:
-        ck.note("msan", "unavailable: " + str(e)[:200])
-        exem = None
     if exem:
         mfiles = [f for f in order if os.path.getsize(f) < (1000000 if quick else 4000000)]
         shards = [(exem, ck.seed, 1 if quick else 3, maxsize, os.path.join(scratch, "m%d" % i), bystander, mfiles[i::nsh]) for i in range(nsh)]
@@ -446,15 +497,84 @@ def run(ck):
     finally:
         import shutil
         shutil.rmtree(scratch, ignore_errors=True)
-    ck.cov["rule"] = ("correspondence cases: (function, random byte string) / (random synthetic loader table, info prefill, data) / "
-                      "(wrapper kind, argument class, data); distinct by hash of the driver input; non-trivial for string cases = the "
-                      "string holds an unprintable byte or a trailing space, for table/wrap cases = every case")
+    ck.cov["rule"] = ("evaluations = correspondence cases + oracle (file, variant, entry-point pair) triples. Correspondence cases: "
+                      "(function, random byte string) / (random synthetic loader table, info prefill, data) / (wrapper kind, argument "
+                      "class, data), distinct by hash of the driver input, non-trivial for string cases = the string holds an unprintable "
+                      "byte or a trailing space, for table/wrap cases = every case. Oracle triples: distinct by (file, variant, pair), "
+                      "non-trivial = a mutated variant, or an input some loader recognises")
     ck.assumptions += [
-        "each loader's test() is a function of the stream contents whose return value does not depend on the title pointer, "
-        "and returns 0 or a negative value (checked on the real loaders by the oracle for every input it runs)",
+        "Premise/NonPos: each loader's test() only reads the stream, its verdict does not depend on whether a title buffer is passed, and it "
+        "never returns a positive value (hypotheses of C11_agree; re-checked on the real format_loaders[] by the oracle for every input of "
+        "the memory pair: a failure is reported as a broken premise)",
+        "PrepOk: libxmp_prepare_scan returns only values listed by the translator from its `return` statements (C11_prepare_scan_codes)",
+        "ProWizard detectors either leave title[21] alone or set it through pw_read_title (hypothesis of C11_strings_success_partial via "
+        "pwTitleTerminated_of_init; the oracle checks NUL termination and, under MemorySanitizer, initialisedness of every reported string)",
+        "the FILE pair is compared only on inputs libxmp_decrunch leaves alone (as the property states)",
     ]
 
 
 def replay(ck, rp):
-    print("replay not implemented yet")
-    return 2
+    """Re-run a recorded case on the real code and say what happens."""
+    global PWNAMES, PWUNTITLED, PW_TITLE_INIT
+    import json
+    import shutil
+    g = gen_c11.generate()
+    PWNAMES = {n.encode() for n in g["pwnames"]}
+    PWUNTITLED = {n.encode() for n in g["pw_untitled"]}
+    PW_TITLE_INIT = bool(g["pw_title_init"])
+    r = rp.get("replay")
+    ck.lean_ok = vlib.lean_build(["drv_c11"])[0]
+    scratch = os.path.join(vlib.OUT, "c11-replay-%d" % os.getpid())
+    os.makedirs(scratch, exist_ok=True)
+    bad = False
+    try:
+        if isinstance(r, dict) and "variant" in r:
+            msan = "msan" in r.get("how", "") or "uninit" in rp.get("signature", "")
+            exe = vlib.build_harness("c11_agree", ["c11_agree.c"], variant="msan" if msan else "asan")
+            rc, out, err = vlib.run_exe(exe, ["replay", scratch, os.path.join(vlib.REPO, "test", "test.xm"), r["file"], r["variant"]],
+                                        timeout=600, env={"MSAN_OPTIONS": "halt_on_error=1:exit_code=86"})
+            text = out.decode("latin-1")
+            print("\n".join(l for l in text.splitlines() if l[:2] in ("R ", "T ", "V ", "P ", "X ")))
+            if rc != 0:
+                print(err[-3000:])
+                print("the library crashed / the sanitizer aborted (rc=%d): %s" % (rc, vlib.sanitizer_signature(err)))
+                bad = True
+            else:
+                stats = {"pairs": 0, "mutated_pairs": 0, "by_pair": {}, "rc_table": {}, "formats": {}, "container_variants": 0,
+                         "title_pairs": 0, "title_pairs_nonempty": 0, "title_pairs_differ_bytes": 0, "premise_failures": 0,
+                         "crashes": 0, "timeouts": 0, "uninit_titles": 0}
+                if not text.rstrip().endswith("E " + r["file"]):
+                    text += "\nE %s\n" % r["file"]
+                judge_files(ck, parse_oracle(text, "@@F %s\n%s" % (r["file"], err)), "c11_agree", stats, msan=msan)
+                for v in ck.violations:
+                    print("still failing: [%s] %s" % (v["signature"], v["what"]))
+                for sig, what in ck.known_hits.items():
+                    print("still failing (known finding): [%s] %s" % (sig, what))
+                for u in ck.unproved_items:
+                    print("premise broken: %s: %s" % (u["name"], u["detail"][:300]))
+                bad = bool(ck.violations or ck.known_hits or ck.unproved_items)
+        elif isinstance(r, dict) and "cmd" in r:
+            exe = vlib.build_harness("c11_strings", ["c11_strings.c", "c11_table.c"])
+            args = r["cmd"][1:]
+            if len(args) > 3:
+                args[3] = scratch
+            rc, out, err = vlib.run_exe(exe, args, timeout=1200)
+            print(err[-3000:])
+            bad = rc != 0
+        elif isinstance(r, dict) and "case" in r:
+            print("driver input:\n" + "\n".join(r["case"]))
+            print("real code answered:\n" + "\n".join(r.get("real", [])))
+            if ck.lean_ok:
+                print("model answers:\n" + "\n".join(vlib.run_driver("drv_c11", "\n".join(r["case"]) + "\n")))
+            bad = True
+        else:
+            print(json.dumps(r, indent=1)[:4000])
+            print("this replay names a broken proof obligation / correspondence; re-run: python3 tools/check.py C11")
+            bad = True
+    finally:
+        shutil.rmtree(scratch, ignore_errors=True)
+    if bad:
+        print("VIOLATION property=C11 replay=%s" % rp.get("_path", "(see above)"))
+    else:
+        print("the recorded case no longer fails")
+    return 1 if bad else 0
